@@ -44,7 +44,7 @@ def plan(tier, seed):
     return shards
 
 
-LARGE_OPS = ["Borda", "Copeland", "KwikSort", "BioConsert", "BioCo", "BioConsert[Borda]", "ParCons", "get_positions",
+LARGE_OPS = ["Borda", "Copeland", "KwikSort", "BioConsert", "BioCo", "BioConsert[Borda]", "ParCons(KwikSort;2)", "get_positions",
              "get_bucket_ids", "unified_rankings", "unified_dataset", "kemeny_score", "parcons_partition", "parfront_partition",
              "iterate", "dataset_eq"]
 
